@@ -26,7 +26,13 @@ Next == PickBlock \/ PickTrace
 \* the result of a presorted / match_multi call must be THE result: as match is a
 \* function of the case (the clauses pin it down) accepting each observation
 \* separately already implies "gives the same result".
+\* scale cases (arrays given by generators, results in compressed form) are judged through
+\* the laws of ArrayMatch.tla, section "scale"; their representation is part of the case.
 FailingRec(r) ==
+    IF r.c.kind \in {"smatch", "sdedup"}
+    THEN UNION {{<<k, r.obs[k].fn, cl>> : cl \in AMScaleFailing(r.c, r.obs[k])} : k \in DOMAIN r.obs} \cup
+         (IF AMScaleRepOK(r.c, r.c.rep) THEN {} ELSE {<<1, "representation", "bad_representation">>})
+    ELSE
     UNION {{<<k, r.obs[k].fn, cl>> : cl \in Failing(r.c, r.obs[k])} : k \in DOMAIN r.obs} \cup
     {<<k, "representation", "bad_representation">> : k \in {j \in DOMAIN r.reps : ~AMRepOK(r.c, r.reps[j])}}
 
